@@ -306,6 +306,33 @@ def _kill(facts, e):
     return tuple(f for f in facts if survives(f))
 
 
+def relevant_vars(f, extra_calls=()):
+    """variables whose constant value can decide a return: those in return expressions (and exit() arguments), and
+    transitively the variables copied or counted into them"""
+    R = set()
+    for b, i, e in f.events():
+        if e["k"] == "return" and e.get("expr"):
+            R |= _vars_of(e["expr"]["tree"])
+        elif e["k"] == "call" and e.get("callee") in extra_calls:
+            for a in e.get("args", []):
+                R |= _vars_of(a.get("tree"))
+    changed = True
+    while changed:
+        changed = False
+        for b, i, e in f.events():
+            tgt = tree = None
+            if e["k"] == "assign" and e.get("base_id") and not e.get("deref") and "rhs" in e:
+                tgt, tree = e["base_id"], e["rhs"]["tree"]
+            elif e["k"] == "decl" and "init" in e:
+                tgt, tree = e["id"], e["init"]["tree"]
+            if tgt in R:
+                new = _vars_of(tree) - R
+                if new:
+                    R |= new
+                    changed = True
+    return R
+
+
 def explore(f, start_block, start_idx, subject, value, classify_return, max_states=40000, origin_callid=None, from_entry=True,
             terminal_calls=None, forbidden_calls=()):
     """Walk every path from the function entry through the site (start_block,start_idx); after the site assume
@@ -319,6 +346,9 @@ def explore(f, start_block, start_idx, subject, value, classify_return, max_stat
     out = []
     seen = set()
     dq = collections.deque()
+    REL = relevant_vars(f, tuple(terminal_calls or ()))
+    LIVE = f.liveness()
+    LIVE_NAMES = {bid: {v.split("@")[0] for v in vs} for bid, vs in LIVE.items()}
     # variables currently holding the result (the variable it was stored in, then whole-object copies of it)
     holders0 = frozenset({subject.var}) if (subject.kind != "call" and subject.var is not None) else frozenset()
     # state: block, pos, phase(0 before site,1 after), lost, facts, env, path
@@ -348,8 +378,8 @@ def explore(f, start_block, start_idx, subject, value, classify_return, max_stat
                     if not lost and subject.returned_by(e, aliases):
                         stop = True
                         break
-                    if not lost and e.get("expr") and mentions(e["expr"]["tree"], subj):
-                        rv = eval_under(e["expr"]["tree"], subj, value)
+                    if e.get("expr") and "rval" not in f.ret_type and not f.ret_type.rstrip().endswith("*"):
+                        rv = eval_under(e["expr"]["tree"], None if lost else subj, value, dict(env))
                         if rv is not None and rv < 0:
                             stop = True
                             break
@@ -384,24 +414,40 @@ def explore(f, start_block, start_idx, subject, value, classify_return, max_stat
             if e["k"] == "assign" and e.get("base_id") and not e.get("deref"):
                 c = const_of(e["rhs"]["tree"]) if (e.get("op") == "=" and "rhs" in e) else None
                 fld = e.get("field") if e.get("lhs") != e.get("base") else None
-                val = c if c is not None else "nonconst"
                 envd = dict(env)
-                if fld is None:
-                    for k in [k for k in envd if k[0] == e["base_id"]]:
-                        del envd[k]
-                    if e.get("op") == "=" and "rhs" in e:
-                        r = strip_casts(e["rhs"]["tree"])
-                        if isinstance(r, list) and r and r[0] in ("call", "icall"):
-                            val = "call:%s" % r[1]
-                envd[(e["base_id"], fld)] = val
-                env = frozenset(envd.items())
+                if c is None and e.get("op") == "=" and "rhs" in e:
+                    rv_ = strip_casts(e["rhs"]["tree"])
+                    if is_var(rv_) and isinstance(envd.get((rv_[1], None)), int):
+                        c = envd[(rv_[1], None)]        # copy of a variable whose constant value is known on this path
+                if c is None and fld is None and e.get("op") in ("++", "++post", "+=") and isinstance(envd.get((e["base_id"], None)), int):
+                    inc = 1 if e.get("op") != "+=" else const_of(e["rhs"]["tree"])
+                    if isinstance(inc, int) and inc > 0 and envd[(e["base_id"], None)] >= 0:
+                        c = min(2, envd[(e["base_id"], None)] + inc)     # saturating counter: 2 stands for "2 or more"
+                val = c if c is not None else "nonconst"
+                if isinstance(c, int) and fld is None and e.get("lhs") == e.get("base"):
+                    # a constant stored in a scalar is also a fact for later branches on it (after _kill removed the old ones)
+                    fo = ((e["base"], "==", c), frozenset({e["base"]}))
+                    facts = tuple([x for x in facts if x != fo] + [fo])[-32:]
+                if e["base_id"] in REL:
+                    if fld is None:
+                        for k in [k for k in envd if k[0] == e["base_id"]]:
+                            del envd[k]
+                        if e.get("op") == "=" and "rhs" in e:
+                            r = strip_casts(e["rhs"]["tree"])
+                            if isinstance(r, list) and r and r[0] in ("call", "icall"):
+                                val = "call:%s" % r[1]
+                    envd[(e["base_id"], fld)] = val
+                    env = frozenset(envd.items())
             elif e["k"] == "decl" and "init" in e:
                 c = const_of(e["init"]["tree"])
                 envd = dict(env)
                 r = strip_casts(e["init"]["tree"])
+                if c is None and is_var(r) and isinstance(envd.get((r[1], None)), int):
+                    c = envd[(r[1], None)]
                 val = c if c is not None else ("call:%s" % r[1] if isinstance(r, list) and r and r[0] in ("call", "icall") else "nonconst")
-                envd[(e["id"], None)] = val
-                env = frozenset(envd.items())
+                if e["id"] in REL:
+                    envd[(e["id"], None)] = val
+                    env = frozenset(envd.items())
             if phase == 1 and not lost and holders0:
                 # copies of the result into other locals, and overwrites of the locals that hold it
                 tgt = src_tree = None
@@ -500,15 +546,30 @@ def explore(f, start_block, start_idx, subject, value, classify_return, max_stat
             if idx >= len(b.succ) or b.succ[idx] is None:
                 continue
             s = b.succ[idx]
+            nenv = env
+            if b.term and "cond" in b.term and b.term["kind"] == "SwitchStmt":
+                sv = strip_casts(b.term["cond"]["tree"])
+                lab = f.blocks[s].label or {}
+                if is_var(sv) and sv[1] in REL and lab.get("kind") == "case" and "value" in lab and "value_hi" not in lab:
+                    ed = dict(env)
+                    ed[(sv[1], None)] = lab["value"]
+                    nenv = frozenset(ed.items())
             nf = facts
             if idx in newfacts:
                 fo = newfacts[idx]
                 nf = tuple([x for x in facts if x != fo] + [fo])
                 if len(nf) > 32:
                     nf = nf[-32:]
-            key = (s, phase, lost, nf, env, by_assumption, aliases)
+            # forget what is known about variables that are dead at the successor (state normalisation)
+            lv = LIVE.get(s, ())
+            if nenv:
+                nenv = frozenset(kv for kv in nenv if kv[0][0] in lv)
+            if nf:
+                ln = LIVE_NAMES.get(s, ())
+                nf = tuple(x for x in nf if x[1] <= ln)
+            key = (s, phase, lost, nf, nenv, by_assumption, aliases)
             if key in seen:
                 continue
             seen.add(key)
-            dq.append((s, 0, phase, lost, nf, env, path + (s,) if len(path) < 200 else path, by_assumption, aliases))
+            dq.append((s, 0, phase, lost, nf, nenv, path + (s,) if len(path) < 200 else path, by_assumption, aliases))
     return out
